@@ -6,7 +6,8 @@ SPEC = {
     "id": "C28",
     "level": "proof",
     "lean_modules": ["PallasVerif.Props.C28"],
-    "required_theorems": ["initiator_conformant_fails_at_witness", "initiator_conformant_partial", "emit_permitted_by_own_view",
+    "required_theorems": ["initiator_conformant_fails_at_witness", "initiator_conformant_partial", "initiator_conformant_delayed", "emitOK_complement", "inDomain_of_check",
+                          "emit_permitted_by_own_view",
                           "lockstep_is_schedule", "lockstep_run_is_schedule"],
     "translators": [translate_fsm.translate_n2],
     "streams": [{"name": "p2p_sched", "quick": 800, "thorough": 25000}],
@@ -28,8 +29,9 @@ SPEC = {
         "real TCP timing is abstracted into the schedule space (any interleaving of confirm/arrive/reply/deliver per connection, "
         "FIFO per direction); Sent/Recv are only produced for live connections; Disconnected is delivered when the connection is dropped",
         "the simulated responder never emits on tx-submission (the initiator never sends Init)",
-        "partial: initiator_conformant_partial covers lock-step schedules only (every Send confirmed and delivered to the responder "
-        "before the next schedule step); delayed confirmations are outside the theorem (and violate the property: known finding)",
+        "partial: initiator_conformant_delayed covers every schedule of the general semantics in which (a) no Send of protocol X is queued "
+        "for a connection with an unconfirmed Send of X (the complement is the known finding, emitOK_complement) and (b) no reply of "
+        "protocol X is delivered while the X request is unconfirmed; schedules violating (b) are sampled only",
     ],
     "explanation": "self-tests on the pallas worktree (reverted afterwards): chainsync visit_tagged without the is_idle guard -> "
                    "VIOLATION (nonconformant cs.reqnext in-state-A, replay of 14 steps); "
